@@ -10,8 +10,10 @@ CONSTANTS XKinds = {"lit"}
           SwapDepClasses = FALSE
           ForgetOutputs = TRUE
           DurDepsOffByOne = FALSE
+          TruthyOptions = FALSE
 INIT Init
 NEXT Next
 INVARIANT RoundTrip
 INVARIANT NoMXPickled
+INVARIANT SwitchedIsFresh
 CHECK_DEADLOCK FALSE
